@@ -105,21 +105,32 @@ func parseFilesField(s string) ([]File, error) {
 	return files, nil
 }
 
+// msgField makes an error message safe for the one-line protocol: blanks and
+// control characters (a message may quote a newline from the program) become _
+func msgField(s string) string {
+	return strings.Map(func(r rune) rune {
+		if r <= ' ' || r == 0x7f {
+			return '_'
+		}
+		return r
+	}, s)
+}
+
 func errFields(err error) string {
 	switch e := err.(type) {
 	case lang.SyntaxError:
-		return fmt.Sprintf("class=syntax line=%d col=%d src=%s msg=%s", e.Line, e.Col, hxs(e.SrcLine), strings.ReplaceAll(e.Message, " ", "_"))
+		return fmt.Sprintf("class=syntax line=%d col=%d src=%s msg=%s", e.Line, e.Col, hxs(e.SrcLine), msgField(e.Message))
 	case lang.RuntimeError:
-		return fmt.Sprintf("class=runtime line=%d col=%d src=%s msg=%s", e.Line, e.Col, hxs(e.SrcLine), strings.ReplaceAll(e.Message, " ", "_"))
+		return fmt.Sprintf("class=runtime line=%d col=%d src=%s msg=%s", e.Line, e.Col, hxs(e.SrcLine), msgField(e.Message))
 	case lang.JsonError:
-		return fmt.Sprintf("class=json file=%s msg=%s", hxs(e.FileName), strings.ReplaceAll(e.Message, " ", "_"))
+		return fmt.Sprintf("class=json file=%s msg=%s", hxs(e.FileName), msgField(e.Message))
 	default:
 		msg := err.Error()
 		switch msg {
 		case "next", "exit", "break", "continue", "return":
 			return "class=sentinel msg=" + msg
 		}
-		return "class=other msg=" + strings.ReplaceAll(msg, " ", "_")
+		return "class=other msg=" + msgField(msg)
 	}
 }
 
@@ -127,7 +138,7 @@ func implRun(fields []string) (resp string) {
 	var out outWriter
 	defer func() {
 		if r := recover(); r != nil {
-			resp = fmt.Sprintf("R class=panic out=%s msg=%s", hx(out.buf), strings.ReplaceAll(fmt.Sprint(r), " ", "_"))
+			resp = fmt.Sprintf("R class=panic out=%s msg=%s", hx(out.buf), msgField(fmt.Sprint(r)))
 		}
 	}()
 	prog, err := unhx(fields[1])
@@ -184,7 +195,7 @@ func implRun(fields []string) (resp string) {
 func implAnswer(line string) (resp string) {
 	defer func() {
 		if r := recover(); r != nil {
-			resp = "R class=panic msg=" + strings.ReplaceAll(fmt.Sprint(r), " ", "_")
+			resp = "R class=panic msg=" + msgField(fmt.Sprint(r))
 		}
 	}()
 	fields := strings.Fields(line)
